@@ -149,3 +149,16 @@ def test_signatures_and_decide():
     # only the default
     assert ref.decide(types(str), table) == ([0], [0])
     assert ref.decide(types(int, Leaf), table) == ([0, 4], [4])
+
+
+def test_member_conservative():
+    m = lambda v, t: ref.member(v, d(t), conservative=True)  # noqa: E731
+    assert m((), T[int, ...]) is False and m((), T[A, ...]) is True and m((), tuple) is True
+    assert m(frozenset(), F[int]) is False and m(frozenset(), F[A]) is True and m(frozenset(), frozenset) is True
+    mixed = frozenset([Leaf(1), Leaf("a")])
+    assert m(mixed, F[Leaf]) is True  # one class: element-wise
+    mixed2 = frozenset([Leaf[int](1), Leaf[str]("a")])
+    assert ref.member(mixed2, d(F[Leaf[object]])) is True  # exact reading
+    assert m(mixed2, F[Leaf[object]]) is False  # recorded as FrozenSet[Leaf]
+    assert m(mixed2, F[Term]) is True
+    assert m((Leaf(()),), T[Leaf[T[int, ...]]]) is False and ref.member((Leaf(()),), d(T[Leaf[T[int, ...]]])) is True
